@@ -68,8 +68,8 @@ static void sync_monitor(const Instance& f) {
   g_seq_len = 0; g_guard_calls = 0; g_in_processing = false; g_round_cancelled = false; g_guards_forbidden = false; g_expect_guards = false; g_watch_pending = false; g_pend_seen = 0; g_pend_stable = true; for (int s = 0; s < VM_NS; ++s) { g_pend_enter[s] = g_pend_exit[s] = g_pend_change[s] = 0; }
   for (int s = 0; s < VM_NS; ++s) { g_sel_called[s] = g_rank_called[s] = g_util_called[s] = false; } g_rng_draws = 0;
   g_trace_len = 0; g_log_len = 0; g_log_transitions = 0; g_log_cancels = 0; g_requests_issued = 0; g_cancels_issued = 0; g_deterministic = false;
-  g_pay_n = 0; g_actor = -1; g_action = 0; for (int s = 0; s < VM_NS; ++s) { g_plan_succeeded[s] = 0; g_plan_failed[s] = 0; }
-  g_sub_nocancel = false; g_sub_veto2 = false; g_sub_guard = -1; g_sub_done = false; g_sub_forever = false; g_round_now = 0; g_cancel_round[1] = g_cancel_round[2] = false; g_sub_guard_calls = 0;
+  g_pay_n = 0; g_actor = -1; g_action = 0; g_actor2 = -1; g_action2 = 0; for (int s = 0; s < VM_NS; ++s) { g_plan_succeeded[s] = 0; g_plan_failed[s] = 0; }
+  g_sub_nocancel = false; g_sub_veto2 = false; g_pp_a = g_pp_b = -1; g_pp_rounds = 0; g_sub_guard = -1; g_sub_done = false; g_sub_forever = false; g_round_now = 0; g_cancel_round[1] = g_cancel_round[2] = false; g_sub_guard_calls = 0;
 }
 // enumerate the well-formed ACTIVE configurations of the declaration (case key for update/react): configuration #k
 static unsigned cfg_count_rec(int s);
